@@ -307,7 +307,13 @@ def tasks(tier):
     from contracts.dul_reactor import DulReactorTask, TransportEventTask
     from contracts.C07 import RunReactorTask
     return [ConnectTask(), AcceptedSocketTask(), GetMsgTask(), ReceivePduTask(), BlockingCallScan(), QueueScan(), DulReactorTask(), RunReactorTask(),
-            TransportEventTask(), _negotiate_release(), _release_call(), _kill_call()]
+            TransportEventTask(), _negotiate_release(), _release_call(), _kill_call(), _abort_call()]
+
+
+def _abort_call():
+    # "ends the association (abort or close) and releases its threads and socket"
+    from contracts.assoc_abort import AbortTask
+    return AbortTask("C08/")
 
 
 def _kill_call():
